@@ -994,6 +994,9 @@ func (s *scen) doFs(st *Step) (ret, ino, kind string, recs []rec) {
 			f.Read(b[:])
 			f.Close()
 		}
+	case "readdir": // open, list and close a directory (IN_OPEN|IN_ISDIR, IN_ACCESS|IN_ISDIR, IN_CLOSE_NOWRITE|IN_ISDIR)
+		ino, kind, _ = s.inoOf(p, true)
+		_, err = os.ReadDir(p)
 	case "rmrf":
 		ino, kind, _ = s.inoOf(p, false)
 		err = os.RemoveAll(p)
